@@ -155,7 +155,21 @@ fn judge_text<T: DiffableStr + ?Sized + std::fmt::Debug>(diff: &TextDiff<T>, sam
 }
 
 fn check_text(c: &TextCase, obs: &mut Obs) -> Verdict {
-    let cfg = config(c.alg);
+    let mut cfg = config(c.alg);
+    // a third of the text cases are diffed under a deadline that expires at probe 0, 1, 2 or 5
+    // (virtual clock): the stored ops must still be a valid script
+    let k = match c.opt % 12 {
+        8 => Some(0u64),
+        9 => Some(1),
+        10 => Some(2),
+        11 => Some(5),
+        _ => None,
+    };
+    if let Some(k) = k {
+        cfg.deadline(far_future());
+        similar::verif::clock::install(Some(k));
+        obs.class("text diff under a deadline (virtual clock)");
+    }
     obs.class("text diff");
     obs.class(TOKENIZERS[(c.tok % 5) as usize]);
     let same = c.old == c.new;
@@ -184,8 +198,8 @@ fn strat(tier: Tier) -> BoxedStrategy<Case> {
     prop_oneof![
         16 => seq_case_k(tier.pick(100, 300), true, 3, true).prop_map(Case::Seq),
         1 => prop_oneof![9 => seq_case(12, true, 3), 1 => big_seq_case(tier)].prop_map(Case::Seq),
-        4 => text_case_mix(tier.pick(120, 160)).prop_map(Case::Text),
-        1 => big_line_case(tier.pick(130, 300)).prop_map(Case::Text),
+        4 => (text_case_mix(tier.pick(120, 160)), 0u8..12).prop_map(|(mut c, o)| { c.opt = o; Case::Text(c) }),
+        1 => (big_line_case(tier.pick(130, 300)), 0u8..12).prop_map(|(mut c, o)| { c.opt = o; Case::Text(c) }),
         1 => distinct_line_case(tier.pick(300, 600)).prop_map(Case::Text),
     ]
     .boxed()
